@@ -197,6 +197,28 @@ def run(ctx):
                                     ctx.violation(f"a rule over variables that do not exist is accepted ({what})", {"text": t}, "an error", "loaded")
                             except (SyntaxError, ValueError, LookupError, RuntimeError):
                                 ctx.hit("refused for " + what)
+                if k % 8 == 1:
+                    # the engine is edited after the rule was loaded - a term of the antecedent renamed - and the rule is loaded again
+                    # as it stands (no unload, same text): the name is unknown now, the rule is refused
+                    try:
+                        again = fl.Rule.create(base, engine)
+                        props = [t for v in engine.input_variables for t in v.terms if f" {t.name} " in f" {again.antecedent.text} ".replace("(", " ").replace(")", " ")]
+                        if props and again.is_loaded():
+                            term = props[0]
+                            old = term.name
+                            term.name = old + "_renamed"
+                            try:
+                                again.load(engine)
+                                ctx.evaluated()
+                                ctx.violation("a rule over a term name that no longer exists is accepted when loaded again", {"text": base, "renamed": old}, "an error", "loaded")
+                            except (SyntaxError, ValueError, LookupError):
+                                ctx.hit("event:reload after a term was renamed is refused")
+                                if again.is_loaded():
+                                    ctx.violation("a rule reports loaded after a failed load", {"text": base, "renamed": old}, False, True)
+                            finally:
+                                term.name = old
+                    except Exception:
+                        pass
                 if k % 3 == 0:  # an already loaded rule object is given the mutated text and loaded again (stale state must not survive)
                     try:
                         again = fl.Rule.create(base, engine)
@@ -220,6 +242,39 @@ def run(ctx):
                         pass
                 if i < 1 and k < 3:
                     ctx.sample("rule mutant", {"base": base, "edit": kind, "mutant": text})
+        # very long antecedents (a thousand propositions and more) with one error somewhere: refused with a syntax error, whatever
+        # the length (no recursion over the length of the text)
+        for i, rnd in ctx.cases("long antecedents", ctx.scale(4, 60)):
+            spec = E.gen_engine(rnd, activations=("General",), d=3, max_rules=1, flags=False)
+            engine = E.build(fl, spec)
+            v = spec["inputs"][0]
+            prop = f"{v['name']} is {v['terms'][0]['name']}"
+            n = rnd.choice([1000, 1200, 2500])
+            parts = [prop] * n
+            glue = [rnd.choice(["and", "or"]) for _ in range(n - 1)]
+            where = rnd.randrange(1, n - 1)
+            kind = "good" if i == 0 else rnd.choice(["missing connective", "dangling connective", "good"])
+            if kind == "missing connective":
+                glue[where] = ""
+            text = " ".join(x for pair in zip(parts, glue + [""]) for x in pair if x)
+            if kind == "dangling connective":
+                text += " and"
+            out = spec["outputs"][0]
+            full = f"if {text} then {out['name']} is {out['terms'][0]['name']}"
+            ctx.evaluated()
+            try:
+                made = fl.Rule.create(full, engine)
+                if kind != "good":
+                    ctx.violation("a very long antecedent with a " + kind + " is accepted", {"propositions": n}, "an error", "loaded")
+                else:
+                    ctx.hit("long antecedent accepted")
+                    str(made)
+            except SyntaxError:
+                ctx.hit("long antecedent refused" if kind != "good" else "long good antecedent refused")
+                if kind == "good":
+                    ctx.violation("a very long grammatical antecedent is refused", {"propositions": n}, "loaded", "SyntaxError")
+            except Exception as ex:
+                ctx.violation(f"a very long antecedent makes the parser fail with {type(ex).__name__} instead of a syntax error", {"propositions": n, "kind": kind}, "SyntaxError", repr(ex)[:200])
         for i, rnd in ctx.cases("documents", max(1, nfll // 10)):
             spec = E.gen_engine(rnd, activations=tuple(c08.METHODS), d=3, max_rules=3, descriptions=True)
             text = fl.FllExporter().to_string(E.build(fl, spec))
@@ -266,7 +321,7 @@ def run(ctx):
                 ctx.sample("injected", {"class": cls, "valid": base, "broken": bad})
         probe.report(ctx)
         reach.report(ctx)
-    ctx.require("hook:Rule.parse", "hook:Rule.load", "hook:Antecedent.load", "hook:Consequent.load", "hook:RuleBlock.load_rules", "hook:FllImporter.from_string", "mutant accepted", "mutant rejected", "document mutant accepted", "document mutant rejected", "accepted rule evaluated", "accepted document exported", "event:reload of a loaded rule", "refused for an engine without components", "refused for an engine without output variables")
+    ctx.require("hook:Rule.parse", "hook:Rule.load", "hook:Antecedent.load", "hook:Consequent.load", "hook:RuleBlock.load_rules", "hook:FllImporter.from_string", "mutant accepted", "mutant rejected", "document mutant accepted", "document mutant rejected", "accepted rule evaluated", "accepted document exported", "event:reload of a loaded rule", "refused for an engine without components", "refused for an engine without output variables", "event:reload after a term was renamed is refused", "long antecedent refused")
     if ctx.nshards == 1:
         for cls in M.ERROR_CLASSES:
             ctx.require(f"injected:{cls}")
